@@ -2,6 +2,7 @@
 package c05
 
 import (
+	"errors"
 	"bytes"
 	"crypto/sha256"
 	"crypto/tls"
@@ -234,6 +235,7 @@ func TestWireConfidentiality(t *testing.T) {
 
 type ICase struct {
 	Side       string `json:"side"`        // server | client
+	Listener   string `json:"listener"`    // server side: tcp (hand-made peer) | websocket | kcp | quic (frp's own connector as the peer)
 	Force      bool   `json:"force"`       // server forces TLS
 	ServerCA   bool   `json:"server_ca"`   // server has a trusted CA (=> mutual TLS)
 	PeerTLS    bool   `json:"peer_tls"`    // the connecting peer uses TLS
@@ -252,6 +254,13 @@ func genI(t *rapid.T) ICase {
 		c.PeerTLS = rapid.Bool().Draw(t, "peertls")
 		c.PeerCert = rapid.SampledFrom([]string{"none", "good", "foreign", "self"}).Draw(t, "peercert")
 		c.FirstByte = rapid.IntRange(-1, 255).Draw(t, "firstbyte")
+		c.Listener = rapid.SampledFrom([]string{"tcp", "tcp", "websocket", "kcp", "quic"}).Draw(t, "listener")
+		if c.Listener != "tcp" {
+			c.FirstByte = -1
+		}
+		if c.Listener == "quic" {
+			c.PeerTLS = true // quic always runs over TLS
+		}
 		return c
 	}
 	c.ClientCA = rapid.Bool().Draw(t, "clientca")
@@ -260,10 +269,29 @@ func genI(t *rapid.T) ICase {
 	return c
 }
 
+func judgeServer(c ICase, s *fx.Server, base *fx.Snapshot, mustRefuse, gotResp bool, resp msg.LoginResp) error {
+	accepted := gotResp && resp.Error == "" && resp.RunID != ""
+	desc := fmt.Sprintf("server force=%v trustedCA=%v; listener=%s peer tls=%v cert=%s firstByte=%d", c.Force, c.ServerCA, c.Listener, c.PeerTLS, c.PeerCert, c.FirstByte)
+	if mustRefuse {
+		if gotResp {
+			return fmt.Errorf("%s: the peer must not get any protocol message interpreted, but it received a LoginResp (error=%q run_id=%q)", desc, resp.Error, resp.RunID)
+		}
+		time.Sleep(20 * time.Millisecond)
+		if d := fx.SnapshotDiff(base, s.Snapshot()); d != "" {
+			return fmt.Errorf("%s: refused peer changed server state: %s", desc, d)
+		}
+		return nil
+	}
+	if !accepted {
+		return fmt.Errorf("%s: an acceptable peer was not admitted (got response=%v error=%q)", desc, gotResp, resp.Error)
+	}
+	return nil
+}
+
 func runI(c ICase) error {
 	certs := fx.GetCerts()
 	if c.Side == "server" {
-		s, err := fx.StartServer(fx.WithServerTCPMux(false), fx.WithCfg(func(sc *v1.ServerConfig, b *fx.Block) {
+		s, err := fx.StartServer(fx.WithServerTCPMux(false), fx.WithKCP(), fx.WithQUIC(), fx.WithCfg(func(sc *v1.ServerConfig, b *fx.Block) {
 			sc.Transport.TLS.Force = c.Force
 			if c.ServerCA {
 				sc.Transport.TLS.TrustedCaFile = certs.CA
@@ -278,15 +306,52 @@ func runI(c ICase) error {
 			ts := time.Now().Unix()
 			return &msg.Login{Version: "0.62.0", User: "u", Timestamp: ts, PrivilegeKey: util.GetAuthKey(fx.Token, ts)}
 		}
+		gotResp := false
+		var resp msg.LoginResp
+		mustRefuse := false
+		if c.Listener != "" && c.Listener != "tcp" {
+			// the same matrix on the other listeners, with frp's own connector as the connecting peer
+			common := fx.ScriptedCommon(s)
+			common.Transport.Protocol = c.Listener
+			switch c.Listener {
+			case "kcp":
+				common.ServerPort = s.Block.Port(fx.SlotKCP)
+			case "quic":
+				common.ServerPort = s.Block.Port(fx.SlotQUIC)
+			}
+			common.Transport.TLS.Enable = lo.ToPtr(c.PeerTLS)
+			if c.PeerTLS {
+				switch c.PeerCert {
+				case "good":
+					common.Transport.TLS.CertFile, common.Transport.TLS.KeyFile = certs.ClientCert, certs.ClientKey
+				case "foreign":
+					common.Transport.TLS.CertFile, common.Transport.TLS.KeyFile = certs.OtherCert, certs.OtherKey
+				case "self":
+					common.Transport.TLS.CertFile, common.Transport.TLS.KeyFile = certs.SelfCert, certs.SelfKey
+				}
+				mustRefuse = c.ServerCA && c.PeerCert != "good"
+			} else {
+				mustRefuse = c.Force || c.ServerCA
+			}
+			common.Transport.DialServerTimeout = 3
+			sc, e := fx.Dial(common)
+			if e == nil {
+				defer sc.Close()
+				_ = sc.Conn.SetDeadline(time.Now().Add(4 * time.Second))
+				e = sc.SendLogin(sc.LoginMsg("u", "", 0))
+				var lr *fx.LoginRefused
+				if e == nil || errors.As(e, &lr) {
+					gotResp, resp = true, sc.LoginResp
+				}
+			}
+			return judgeServer(c, s, base, mustRefuse, gotResp, resp)
+		}
 		conn, err := net.DialTimeout("tcp", s.BindAddr(), 2*time.Second)
 		if err != nil {
 			return fx.Inconclusive("%v", err)
 		}
 		defer conn.Close()
 		_ = conn.SetDeadline(time.Now().Add(4 * time.Second))
-		gotResp := false
-		var resp msg.LoginResp
-		mustRefuse := false
 		if c.PeerTLS {
 			cfg := &tls.Config{InsecureSkipVerify: true}
 			switch c.PeerCert {
@@ -328,22 +393,7 @@ func runI(c ICase) error {
 				}
 			}
 		}
-		accepted := gotResp && resp.Error == "" && resp.RunID != ""
-		desc := fmt.Sprintf("server force=%v trustedCA=%v; peer tls=%v cert=%s firstByte=%d", c.Force, c.ServerCA, c.PeerTLS, c.PeerCert, c.FirstByte)
-		if mustRefuse {
-			if gotResp {
-				return fmt.Errorf("%s: the peer must not get any protocol message interpreted, but it received a LoginResp (error=%q run_id=%q)", desc, resp.Error, resp.RunID)
-			}
-			time.Sleep(20 * time.Millisecond)
-			if d := fx.SnapshotDiff(base, s.Snapshot()); d != "" {
-				return fmt.Errorf("%s: refused peer changed server state: %s", desc, d)
-			}
-			return nil
-		}
-		if !accepted {
-			return fmt.Errorf("%s: an acceptable peer was not admitted (got response=%v error=%q)", desc, gotResp, resp.Error)
-		}
-		return nil
+		return judgeServer(c, s, base, mustRefuse, gotResp, resp)
 	}
 	// client side: a TLS server presenting some identity; did the client send a login?
 	blk, err := fx.Lease()
